@@ -139,6 +139,8 @@ pub struct Promises {
     pub granted: HashMap<u64, u64>,
     /// terms in which this node released leader traffic as a self-elected sole voter before persisting (finding F1)
     pub f1_terms: HashSet<u64>,
+    /// latest released acknowledgement (index, sender's log term there)
+    pub acked: Option<(u64, u64)>,
 }
 
 pub struct Mon {
@@ -152,6 +154,8 @@ pub struct Mon {
     pub dur: Vec<Dur>,
     pub prom: Vec<Promises>,
     pub expect_reject: Option<bool>,
+    /// per leader: highest index each peer acknowledged to it in its current leadership
+    pub acked_by: Vec<HashMap<u64, u64>>,
     pub sc_check_quorum: bool,
     pub sc_pre_vote: bool,
     pub election_tick: usize,
@@ -170,6 +174,7 @@ impl Mon {
             dur: vec![Dur::default(); NN],
             prom: vec![Promises::default(); NN],
             expect_reject: None,
+            acked_by: vec![HashMap::new(); NN],
             sc_check_quorum: false,
             sc_pre_vote: false,
             election_tick: 0,
@@ -313,6 +318,11 @@ impl Mon {
         if self.on(P05) {
             self.cross_check_logs(ni, op);
         }
+        if self.on(P06) && !first {
+            let lg = post.log.clone();
+            self.check_acked_kept(ni, &lg, post.term, "restart", op);
+        }
+        self.acked_by[ni].clear();
         self.b_on_start(ni, post, nodes, first, op);
     }
 
@@ -515,6 +525,14 @@ impl Mon {
                 op,
             );
         }
+        // ---------------- C06: what the node acknowledged stays in its log
+        if self.on(P06) && log_changed {
+            self.check_acked_kept(ni, &post.log, post.term, kind.name(), op);
+        }
+        // ---------------- C04/C13: a leader's matched index needs an acknowledgement received in this leadership
+        if self.on(P04) || self.on(P13) {
+            self.track_acks(ni, kind, pre, post, op);
+        }
         // ---------------- C02 election safety
         if post.role == StateRole::Leader {
             let id = (ni + 1) as u64;
@@ -638,6 +656,66 @@ impl Mon {
             self.check_leader_complete(ni, post, op);
         }
         self.b_after_call(ni, kind, pre, post, nodes, op);
+    }
+
+    fn check_acked_kept(&mut self, ni: usize, log: &LogView, node_term: u64, how: &str, op: usize) {
+        if let Some((i, t)) = self.prom[ni].acked {
+            let kept = log.base >= i || log.term(i) == Some(t);
+            // only a leader of a term above t can have rewritten (i, t): the node's term is then above t
+            // (after a crash between the entries write and the hard-state write the term may lag the log:
+            // an entry of a higher term in the log shows the same thing)
+            let superseded = node_term > t || log.term(log.last()).map_or(false, |lt| lt > t) || log.term(i.min(log.last())).map_or(false, |t2| t2 > t);
+            if !kept && !superseded {
+                self.violation(
+                    "C06",
+                    "acknowledged-entry-lost",
+                    format!(
+                        "node {} released an acknowledgement for (index {}, term {}) but after {} its log (boundary {}, last {}, term there {:?}, last term {:?}) neither holds nor covers it",
+                        ni + 1, i, t, how, log.base, log.last(), log.term(i), log.term(log.last())
+                    ),
+                    op,
+                );
+                self.prom[ni].acked = None;
+            }
+        }
+    }
+
+    fn track_acks(&mut self, ni: usize, kind: &CallKind, pre: &NodeObs, post: &NodeObs, op: usize) {
+        let id = (ni + 1) as u64;
+        if post.role != StateRole::Leader {
+            return;
+        }
+        if pre.role != StateRole::Leader || pre.term != post.term {
+            self.acked_by[ni].clear();
+        }
+        if let CallKind::Step(m) = kind {
+            if m.get_msg_type() == MessageType::MsgAppendResponse && !m.reject && pre.role == StateRole::Leader && m.term == pre.term {
+                let e = self.acked_by[ni].entry(m.from).or_insert(0);
+                if m.index > *e {
+                    *e = m.index;
+                }
+            }
+        }
+        for p in &post.prs {
+            if p.id == id {
+                continue;
+            }
+            let g = self.acked_by[ni].get(&p.id).copied().unwrap_or(0);
+            if p.matched > g {
+                let (f, mt) = (p.id, p.matched);
+                let prop = if self.on(P04) { "C04" } else { "C13" };
+                self.violation(
+                    prop,
+                    "matched-without-acknowledgement",
+                    format!(
+                        "leader {} (term {}) records index {} as acknowledged by {} but the highest index {} acknowledged to it in this term is {}",
+                        id, post.term, mt, f, f, g
+                    ),
+                    op,
+                );
+                break;
+            }
+        }
     }
 
     fn check_leader_commit(&mut self, ni: usize, c1: u64, post: &NodeObs, nodes: &[Node], op: usize) {
@@ -920,6 +998,11 @@ impl Mon {
         if m.term != 0 && !exempt && m.term > p.max_term_released {
             p.max_term_released = m.term;
         }
+        if t == MessageType::MsgAppendResponse && !m.reject {
+            if let Some(gt) = meta.gen_term_at_index {
+                p.acked = Some((m.index, gt));
+            }
+        }
         let grant = match t {
             MessageType::MsgRequestVote => Some(id),
             MessageType::MsgRequestVoteResponse if !m.reject => Some(m.to),
@@ -984,12 +1067,12 @@ impl Mon {
                 }
                 MessageType::MsgAppendResponse if !m.reject => {
                     if let Some(gt) = meta.gen_term_at_index {
-                        // an entry replaced before it was ever written (a newer leader's entry now
-                        // durably sits at that index) voids the acknowledgement harmlessly
-                        // (log terms are monotone, so a newer leader's rewrite at or before m.index shows
-                        // at min(m.index, last durable index))
-                        let k = m.index.min(nodes[ni].disk.last_index());
-                        let superseded = nodes[ni].disk.term_of(k).map_or(false, |t2| t2 > gt);
+                        // an entry replaced before it was ever written voids the acknowledgement harmlessly:
+                        // only a leader of a term above the entry's can have rewritten it, so the node's
+                        // log no longer holds (index, term) and its own term is above that term
+                        let superseded = nodes[ni].rn.as_ref().map_or(false, |rn| {
+                            log_view(rn).term(m.index) != Some(gt) && rn.raft.term > gt
+                        });
                         if m.index > dur.snap && !dur.ents.contains(&(m.index, gt)) && !superseded {
                             bad = Some((
                                 "append-ack-before-entries-durable",
